@@ -213,6 +213,21 @@ def run_contract(ctx: Ctx, case: Dict[str, Any]) -> None:
         except ValueError:
             continue
         relation(ctx, "IoContract", edit, a, b, want, case)
+    # an object that was hashed and then changed in place by its own method (IoContract.simplify): afterwards it
+    # equals its fresh copy, so it must hash like it
+    c = dict(n)
+    if c["g"]:
+        t = ctx.rng.choice(c["g"])
+        c = {"in": c["in"], "out": c["out"], "a": c["a"], "g": c["g"] + [{"c": dict(t["c"]), "k": t["k"] + 1.0}]}
+    try:
+        m = P.mk_contract(c, simplify=False)
+        safe_hash(m)
+        m.simplify()
+        relation(ctx, "IoContract", "hashed-then-simplified-in-place:vs-copy", m, m.copy(), True, case)
+        relation(ctx, "IoContract", "hashed-then-simplified-in-place:vs-rebuilt", m,
+                 P.mk_contract(X.snap_contract(m), simplify=False), True, case)
+    except ValueError:
+        ctx.count("in-place-simplify-raised")
     # transitivity on a triple of equal-by-construction objects
     t1, t2, t3 = P.mk_contract(n, simplify=False), base.copy(), P.mk_contract(n, simplify=False)
     e12, e23, e13 = safe_eq(t1, t2), safe_eq(t2, t3), safe_eq(t1, t3)
